@@ -605,6 +605,12 @@ func (c *oblCtx) walkStmts(list []ast.Stmt) {
 				}
 			}
 		}
+		if is, ok := st.(*ast.IfStmt); ok && is.Else == nil && !terminates(is.Body) {
+			// v, has := m[k]; if !has { v = <fresh value> }  =>  v != nil afterwards, when m only ever stores non-nil values
+			if x := c.absentRepair(is); x != "" {
+				c.facts = append(append([]fact{}, c.facts...), fact{nonNil: x})
+			}
+		}
 		if is, ok := st.(*ast.IfStmt); ok && is.Else == nil && terminates(is.Body) {
 			c.facts = append(append([]fact{}, c.facts...), c.condFacts(is.Cond, false)...)
 			c.facts = append(c.facts, c.okFacts(is.Init, is.Cond, false)...)
@@ -662,6 +668,119 @@ func (c *oblCtx) definitelyAssignedAfterDecl(obj types.Object) bool {
 		return true
 	})
 	return res
+}
+
+// absentRepair recognises `if !has { v = <fresh value>; ... }` where `v, has := m[k]` is the only other
+// definition of v and has, m is a map created in this function, and every store m[..] = e in the function has
+// e fresh or e == v. Then v is non-nil after the if: either it was just assigned a fresh value, or it is a value
+// that was stored in m, and only non-nil values are.
+func (c *oblCtx) absentRepair(is *ast.IfStmt) string {
+	if c.fn == nil {
+		return ""
+	}
+	un, ok := ast.Unparen(is.Cond).(*ast.UnaryExpr)
+	if !ok || un.Op != token.NOT {
+		return ""
+	}
+	hasID := identOf(un.X)
+	if hasID == nil {
+		return ""
+	}
+	info := c.info()
+	hasObj := objOf(info, hasID)
+	// the comma-ok lookup binding has
+	var lookup *ast.AssignStmt
+	nHasDefs := 0
+	ast.Inspect(c.fn, func(n ast.Node) bool {
+		as, ok := n.(*ast.AssignStmt)
+		if !ok {
+			return true
+		}
+		for i, l := range as.Lhs {
+			if id := identOf(l); id != nil && objOf(info, id) == hasObj {
+				nHasDefs++
+				if i == 1 && len(as.Lhs) == 2 && len(as.Rhs) == 1 {
+					if _, isIx := ast.Unparen(as.Rhs[0]).(*ast.IndexExpr); isIx {
+						lookup = as
+					}
+				}
+			}
+		}
+		return true
+	})
+	if lookup == nil || nHasDefs != 1 || lookup.End() > is.Pos() {
+		return ""
+	}
+	vID := identOf(lookup.Lhs[0])
+	ix := ast.Unparen(lookup.Rhs[0]).(*ast.IndexExpr)
+	mID := identOf(ix.X)
+	if vID == nil || mID == nil || vID.Name == "_" {
+		return ""
+	}
+	if _, isMap := info.TypeOf(ix.X).Underlying().(*types.Map); !isMap {
+		return ""
+	}
+	vObj, mObj := objOf(info, vID), objOf(info, mID)
+	// the repair inside the if
+	repaired := false
+	var repairPos token.Pos
+	for _, bs := range is.Body.List {
+		if as, ok := bs.(*ast.AssignStmt); ok && len(as.Lhs) == 1 && len(as.Rhs) == 1 {
+			if id := identOf(as.Lhs[0]); id != nil && objOf(info, id) == vObj && isFreshValue(as.Rhs[0]) && !repaired {
+				repaired = true
+				repairPos = as.End()
+			}
+		}
+	}
+	if !repaired {
+		return ""
+	}
+	// v: defined only by the lookup and by fresh values; m: created here, stores only fresh values or v
+	okAll := true
+	mCreated := false
+	ast.Inspect(c.fn, func(n ast.Node) bool {
+		as, ok := n.(*ast.AssignStmt)
+		if !ok {
+			return true
+		}
+		for i, l := range as.Lhs {
+			var rhs ast.Expr
+			if len(as.Rhs) == len(as.Lhs) {
+				rhs = as.Rhs[i]
+			}
+			if id := identOf(l); id != nil {
+				switch objOf(info, id) {
+				case vObj:
+					if as != lookup && (rhs == nil || !isFreshValue(rhs)) {
+						okAll = false
+					}
+				case mObj:
+					if rhs != nil && isFreshValue(rhs) {
+						mCreated = true
+					} else {
+						okAll = false
+					}
+				}
+				continue
+			}
+			if lx, ok := ast.Unparen(l).(*ast.IndexExpr); ok {
+				if id := identOf(lx.X); id != nil && objOf(info, id) == mObj {
+					if rhs == nil {
+						okAll = false
+					} else if rid := identOf(rhs); rid != nil && objOf(info, rid) == vObj && as.Pos() >= repairPos {
+						// stores v after the repair (textually after it, v being re-bound by the lookup on every iteration)
+					} else if !isFreshValue(rhs) {
+						okAll = false
+					}
+				}
+			}
+		}
+		return true
+	})
+	if !okAll || !mCreated {
+		return ""
+	}
+	return vID.Name
 }
 
 func isFreshValue(e ast.Expr) bool {
@@ -827,19 +946,19 @@ func hasMethods(ms *types.MethodSet, names ...string) bool {
 // justifiedOBL: frozen table of partial operations that are safe for a non-local reason.
 // key: qualified function | construct (types.ExprString). One line of reason each.
 var justifiedOBL = map[string]string{
-	"analysis.fetchStructComments|scope.Type().(*types.Named)":               "scope is the TypeName looked up by the name of a *types.Named declared in that package: a defined (non-alias) type name, whose Type() is *types.Named",
-	"analysis.(*Enum).Underlying|e.Type().Underlying().(*types.Basic)":        "an Enum is only created for the type of a typed constant (fetchPkgEnums); the Go spec allows constants of basic underlying types only",
-	"analysis/sql.(Array).Name|ar.A.Elem.(*an.Basic)":                         "constructor invariant: newType builds sql.Array only when Elem is *an.Basic or an integer *an.Enum (checked by side condition SIDE-sqlArray); the enum case is tested first",
-	"generator/go/gounions.jsonForArray|typ.Underlying.(*an.Array)":           "caller-guarded: only called from codeForNamed inside `case *an.Array` with Elem.(*an.Union) tested (side condition SIDE-callers)",
-	"generator/go/gounions.jsonForArray|ar.Elem.(*an.Union)":                  "caller-guarded: see above",
-	"generator/go/gounions.jsonForMap|typ.Underlying.(*an.Map)":               "caller-guarded: only called from codeForNamed inside `case *an.Map` with Elem.(*an.Union) tested (side condition SIDE-callers)",
-	"generator/go/gounions.jsonForMap|ar.Elem.(*an.Union)":                    "caller-guarded: see above",
-	"analysis/httpapi.parseCallWithString|tuple.At(0)":                        "a call expression used as the right-hand side of an assignment has at least one result; go/types gives it a Tuple type only when it has two or more",
-	"analysis/sql.(Composite).SQLType|ty.t.Fields[fieldIndex]":                "caller-guarded: the only caller (compositeDecl) passes the range index over the same struct's Fields (side condition SIDE-callers)",
-	"generator/go/randdata.(context).codeForEnum|strings.Fields(fullString)[1]": "types.ObjectString of a *types.Const is `const <name> <type>`: at least three fields",
+	"analysis.fetchStructComments|scope.Type().(*types.Named)":                     "scope is the TypeName looked up by the name of a *types.Named declared in that package: a defined (non-alias) type name, whose Type() is *types.Named",
+	"analysis.(*Enum).Underlying|e.Type().Underlying().(*types.Basic)":             "an Enum is only created for the type of a typed constant (fetchPkgEnums); the Go spec allows constants of basic underlying types only",
+	"analysis/sql.(Array).Name|ar.A.Elem.(*an.Basic)":                              "constructor invariant: newType builds sql.Array only when Elem is *an.Basic or an integer *an.Enum (checked by side condition SIDE-sqlArray); the enum case is tested first",
+	"generator/go/gounions.jsonForArray|typ.Underlying.(*an.Array)":                "caller-guarded: only called from codeForNamed inside `case *an.Array` with Elem.(*an.Union) tested (side condition SIDE-callers)",
+	"generator/go/gounions.jsonForArray|ar.Elem.(*an.Union)":                       "caller-guarded: see above",
+	"generator/go/gounions.jsonForMap|typ.Underlying.(*an.Map)":                    "caller-guarded: only called from codeForNamed inside `case *an.Map` with Elem.(*an.Union) tested (side condition SIDE-callers)",
+	"generator/go/gounions.jsonForMap|ar.Elem.(*an.Union)":                         "caller-guarded: see above",
+	"analysis/httpapi.parseCallWithString|tuple.At(0)":                             "a call expression used as the right-hand side of an assignment has at least one result; go/types gives it a Tuple type only when it has two or more",
+	"analysis/sql.(Composite).SQLType|ty.t.Fields[fieldIndex]":                     "caller-guarded: the only caller (compositeDecl) passes the range index over the same struct's Fields (side condition SIDE-callers)",
+	"generator/go/randdata.(context).codeForEnum|strings.Fields(fullString)[1]":    "types.ObjectString of a *types.Const is `const <name> <type>`: at least three fields",
 	"generator/go/sqlcrud.(context).generatePrimaryTable|ta.Columns[primaryIndex]": "caller-guarded: generateTable calls generatePrimaryTable only when ta.Primary() >= 0, and Primary returns an index of Columns (side condition SIDE-callers)",
-	"analysis.LocalName|ty.Type().(*types.Named)": "caller-guarded: every call site carries an OBL-PRE obligation that its argument is a named-kind node",
-	"analysis/httpapi.resolveVarType|resolveIdentifier(arg, pkg).Type":        "every identifier used as an operand in a type-checked file is recorded in Info.Uses or Info.Defs; arg is an operand of a call in such a file",
+	"analysis.LocalName|ty.Type().(*types.Named)":                                  "caller-guarded: every call site carries an OBL-PRE obligation that its argument is a named-kind node",
+	"analysis/httpapi.resolveVarType|resolveIdentifier(arg, pkg).Type":             "every identifier used as an operand in a type-checked file is recorded in Info.Uses or Info.Defs; arg is an operand of a call in such a file",
 }
 
 // runNilMap (OBL-NILMAP): a store `x.f[k] = v` into a map-typed struct field requires that every way of
